@@ -1997,7 +1997,13 @@ def exponent_stream(ctx):
             scale = float(np.linalg.norm(refv))
             if np.ndim(ref) == 0 and op in ("overlap", "H@", "expec", "mpo@", "trace", "local_expectation:canonical", "local_expectation:envs"):
                 # a contraction can cancel: measure against the size of the terms that were summed
-                scale = max(scale, float(np.linalg.norm(da) * (np.linalg.norm(db) if op in ("overlap", "H@", "expec", "mpo@") else np.linalg.norm(da))) * 1e-3)
+                # (round-off of a contraction is relative to the product of the norms of everything contracted, the operator
+                # included - measuring <a|A|b> against |a||b| alone raised a false alarm at 1.6e-10)
+                terms = float(np.linalg.norm(da) * (np.linalg.norm(db) if op in ("overlap", "H@", "expec", "mpo@") else np.linalg.norm(da)))
+                if op == "expec":
+                    terms *= float(np.linalg.norm(MA))
+                scale = max(scale, terms)
+                tol = max(tol, 1e-9)
             if got.shape != refv.shape or not np.all(np.isfinite(got)) or not np.linalg.norm(got - refv) <= tol * max(scale, 1e-300):
                 err = float(np.linalg.norm(got - refv) / max(scale, 1e-300)) if got.shape == refv.shape else float("nan")
                 ctx.violation(key, f"{op} with operand exponents (a: {ea}, b: {eb}, A: {eA}): the result (stored exponent "
